@@ -1,4 +1,4 @@
-import XpmVerif.Proofs.SerialInst
+import XpmVerif.Proofs.SerialState
 /-! C13 — runtime objects mirror the configuration graph and are initialised once.
 
     Model: Model/Serial.lean (M5).  `instanceWalk g constructed root` is the `FromPython` walk of
@@ -8,6 +8,10 @@ import XpmVerif.Proofs.SerialInst
     postInit` in `postprocess`, then `exec` of every gathered pre-task in `fromConfig`).
     `runLog (serialize … [root])` is what `run.py::run` causes when it rebuilds a task from its
     parameter file (`fromParameters(as_instance=True)`, then the task body).
+    `loadStateLog defs data` is what `from_state_dict(state, as_instance=True)` / `load(path, as_instance=True)`
+    cause when a saved VALUE (a list / dictionary / nesting of configurations: several roots, possibly sharing
+    sub-configurations) is loaded as runtime objects; `stateDict fl lib sg v = (serialize … (cfgRefs v), encJ v)`
+    is what `state_dict` / `save` wrote; `fromStateDictInst` is the returned value and the attributes.
     A runtime object is identified with the configuration it stands for: "exactly one object per
     distinct configuration" is "exactly one `new n` event"; an attribute that refers to configuration
     `m` holds *the* object of `m`, which exists (`… ∈ store`). -/
@@ -116,6 +120,136 @@ theorem init_tasks_once (fl : Flags) (lib : List Cls) (sg : SGraph) (root : Nat)
     simp only [] at h
     rw [h, if_pos hp, List.count_eq_zero_of_not_mem hni]
 
+/-! ### a saved value with several roots loaded as runtime objects (`from_state_dict` / `load`, `as_instance=True`) -/
+
+/-- **Loaded from a saved value: one object per configuration, post-initialised once, after its own
+    parameters and after every object it refers to exists.**  For every graph (sharing between roots, cycles),
+    every list of roots (`roots` = the configurations listed in the saved value, in any order, with
+    repetitions, inner nodes included) and whatever the `data` member is: the configurations written
+    (`order`) are exactly those reachable from a root through parameter values, task links, pre-tasks and
+    init tasks — in particular every node reachable from the roots through parameter values at any depth;
+    for each of them the log holds exactly one `new`, one `__init__` and one `__post_init__`; its
+    `__init__`, the assignment of each present parameter and its `__post_init__` are contiguous in this
+    order, nothing is assigned to it and no `__post_init__` of it occurs before or after; and before that
+    block the object of EVERY written configuration has been created (`new`) — hence that of every
+    configuration it references (what it references was written); moreover (last line) every object it references
+    — through a parameter value, its task link, a pre-task or an init task — has already been fully initialised
+    (`__post_init__` included) when its own `__init__` starts, unless that object leads back to it (a cycle: then
+    the referenced object exists but may still be unfilled).  Nothing at all for other ids.
+    The property fixes no order between the blocks of DIFFERENT objects (the model emits them in definition
+    order, children first except on a cycle). -/
+theorem state_loaded_objects_once (fl : Flags) (lib : List Cls) (sg : SGraph) (roots : List Nat) (data : JVal)
+    (hwf : WF sg.g) (hr : ∀ r ∈ roots, r < sg.g.size) (n : Nat) :
+    let order := serialOrder sg.g roots
+    let log := loadStateLog (serialize fl lib sg roots) data
+    ((∃ r ∈ roots, Reach (fun k => argRefs (sg.g.node k)) r n) → n ∈ order) ∧
+    (n ∈ order ↔ ∃ r ∈ roots, Reach (succAll sg.g) r n) ∧
+    log.count (Ev.new n) = (if n ∈ order then 1 else 0) ∧
+    log.count (Ev.init n) = (if n ∈ order then 1 else 0) ∧
+    log.count (Ev.postInit n) = (if n ∈ order then 1 else 0) ∧
+    (n ∈ order → ∃ l1 l2, log = l1 ++ (Ev.init n :: ((presentNames (sg.g.node n)).map (Ev.set n) ++ [Ev.postInit n])) ++ l2 ∧
+        (∀ a, Ev.set n a ∉ l1) ∧ (∀ a, Ev.set n a ∉ l2) ∧ Ev.postInit n ∉ l1 ∧ Ev.postInit n ∉ l2 ∧
+        (∀ m ∈ order, Ev.new m ∈ l1) ∧ (∀ m ∈ succAll sg.g n, m ∈ order) ∧
+        (∀ m ∈ succAll sg.g n, Reach (succAll sg.g) m n ∨ Ev.postInit m ∈ l1)) := by
+  intro order log
+  obtain ⟨_, hiff, _, hcl⟩ := serialOrder_spec sg.g roots hwf hr
+  obtain ⟨h1, h2, h3, h4⟩ := loadStateLog_objects fl lib sg roots data hwf hr n
+  refine ⟨?_, hiff n, h1, h2, h3, fun hn => ?_⟩
+  · rintro ⟨r, hrr, hreach⟩
+    exact (hiff n).2 ⟨r, hrr, reach_mono (argRefs_sub_succAll sg.g) hreach⟩
+  · obtain ⟨l1, l2, e, a1, a2, a3, a4, a5, a6⟩ := h4 hn
+    exact ⟨l1, l2, e, a1, a2, a3, a4, a5, hcl n hn, a6⟩
+
+/-- … the same for what `state_dict(v)` / `save(v)` wrote for a value `v` (any nesting of lists and
+    dictionaries; its roots are the configurations occurring in it, `cfgRefs v`). -/
+theorem state_loaded_objects_once_value (fl : Flags) (lib : List Cls) (sg : SGraph) (v : Val)
+    (hwf : WF sg.g) (hr : ∀ r ∈ cfgRefs v, r < sg.g.size) (n : Nat) :
+    let order := serialOrder sg.g (cfgRefs v)
+    let log := loadStateLog (stateDict fl lib sg v).1 (stateDict fl lib sg v).2
+    ((∃ r ∈ cfgRefs v, Reach (fun k => argRefs (sg.g.node k)) r n) → log.count (Ev.new n) = 1 ∧ log.count (Ev.postInit n) = 1) ∧
+    (n ∉ order → log.count (Ev.new n) = 0 ∧ log.count (Ev.postInit n) = 0) := by
+  intro order log
+  obtain ⟨h0, _, h1, _, h3, _⟩ := state_loaded_objects_once fl lib sg (cfgRefs v) (encJ v) hwf hr n
+  refine ⟨fun h => ?_, fun h => ?_⟩
+  · have hn := h0 h
+    exact ⟨h1.trans (if_pos hn), h3.trans (if_pos hn)⟩
+  · exact ⟨h1.trans (if_neg h), h3.trans (if_neg h)⟩
+
+/-- **The returned value mirrors the written one, with one runtime object per configuration.**
+    `from_state_dict(state_dict(v), as_instance=True)` succeeds and returns `v` itself (same nesting, same keys,
+    same plain values), a reference `.ref m` now denoting THE runtime object created for configuration `m`
+    — there is exactly one (`state_loaded_objects_once`), so the same object stands wherever the written value
+    or any parameter mentions `m`, across roots too; the objects are those of `order`, without repetition, each
+    holding, for every present parameter, the configured value (references again being the objects of the
+    referenced configurations); every configuration mentioned by the value or by a parameter of a written
+    configuration has its object.  Hypotheses: references stay inside the graph; no dictionary of the value or
+    of a parameter has a key `"type"` (the model writes such a dictionary unwrapped — `C12.dict_type_key_witness`). -/
+theorem state_loaded_mirror (fl : Flags) (lib : List Cls) (sg : SGraph) (v : Val)
+    (hwf : WF sg.g) (hkv : noTypeKey v = true) (hr : ∀ r ∈ cfgRefs v, r < sg.g.size)
+    (hk : ∀ n, Needed sg.g (cfgRefs v) n → ∀ a ∈ (sg.g.node n).args, noTypeKey a.value = true) :
+    let order := serialOrder sg.g (cfgRefs v)
+    fromStateDictInst (stateDict fl lib sg v)
+      = .ok (order.map (fun n => (n, ((sg.g.node n).args.filter present).map (fun a => (a.name, a.value)))), v) ∧
+    order.Nodup ∧
+    (∀ m ∈ cfgRefs v, m ∈ order) ∧
+    (∀ n ∈ order, ∀ m ∈ argRefs (sg.g.node n), m ∈ order) ∧
+    (∀ m ∈ order, (loadStateLog (stateDict fl lib sg v).1 (stateDict fl lib sg v).2).count (Ev.new m) = 1) := by
+  intro order
+  obtain ⟨hnd, hiff, _, hcl⟩ := serialOrder_spec sg.g (cfgRefs v) hwf hr
+  refine ⟨fromStateDictInst_stateDict fl lib sg v hwf hkv hr hk, hnd,
+    fun m hm => (hiff m).2 ⟨m, hm, Reach.refl m⟩,
+    fun n hn m hm => hcl n hn m (argRefs_sub_succAll sg.g n m hm), fun m hm => ?_⟩
+  have h := (loadStateLog_objects fl lib sg (cfgRefs v) (encJ v) hwf hr m).1
+  show (loadStateLog (serialize fl lib sg (cfgRefs v)) (encJ v)).count (Ev.new m) = 1
+  rw [h, if_pos hm]
+
+/-- … and this route builds an object for every configuration `instance()` would build one for: whatever the
+    `FromPython` walk of a listed configuration `r` enters with a fresh store (values, pre-tasks, init tasks) gets
+    exactly one object here as well (this route additionally builds the upstream tasks behind `task` links). -/
+theorem state_loaded_covers_instance (fl : Flags) (lib : List Cls) (sg : SGraph) (roots : List Nat) (data : JVal)
+    (hwf : WF sg.g) (hr : ∀ r ∈ roots, r < sg.g.size) (r : Nat) (hrr : r ∈ roots) (n : Nat)
+    (hn : n ∈ entersOf (instanceWalk sg.g [] r).trace) :
+    (loadStateLog (serialize fl lib sg roots) data).count (Ev.new n) = 1 ∧
+    (loadStateLog (serialize fl lib sg roots) data).count (Ev.postInit n) = 1 := by
+  have hwfi : WFInst sg.g := fun k hk m hm => hwf k hk m (succInst_sub_succAll sg.g k m hm)
+  have hreach := (instanceWalk_fresh sg.g r hwfi (hr r hrr) n).1 hn
+  obtain ⟨_, hiff, h1, _, h3, _⟩ := state_loaded_objects_once fl lib sg roots data hwf hr n
+  have hin := hiff.2 ⟨r, hrr, reach_mono (succInst_sub_succAll sg.g) hreach⟩
+  exact ⟨by rw [h1, if_pos hin], by rw [h3, if_pos hin]⟩
+
+/-- **On this route nothing is executed** (what the model says about the observation recorded by the
+    correspondence, `CHECK_PRETASKS_ON_STATE_LOAD = False`): whatever the definitions and the data,
+    `from_state_dict(…, as_instance=True)` / `load(…, as_instance=True)` run no `execute()` — no pre-task of any
+    loaded configuration, no init task — and no task body; `fromParameters(as_instance=True)` on the SAME
+    definitions is this log followed by the executions of the de-duplicated pre-tasks and of the init tasks of
+    the last definition.  So "every pre-task runs exactly once" (`pretasks_once`, `init_after_pre_before_body`)
+    holds for `instance()` and for a parameter file, not for a saved value loaded as instances: its pre-tasks
+    are built and post-initialised (`state_load_pretask_built_not_run`) but never run. -/
+theorem state_load_runs_no_pretask (defs : List Def) (data : JVal) :
+    (∀ p, Ev.exec p ∉ loadStateLog defs data) ∧ (∀ n, Ev.body n ∉ loadStateLog defs data) ∧
+    loadInstanceLog defs = loadStateLog defs data ++ (preList defs).map Ev.exec ++ (initList defs).map Ev.exec :=
+  ⟨(loadStateLog_no_exec defs data).1, (loadStateLog_no_exec defs data).2, loadInstanceLog_eq defs data⟩
+
+/-- … on the graph: a pre-task (or init task) `p` of a written configuration gets its object, `__post_init__`-ed
+    once, and is executed zero times. -/
+theorem state_load_pretask_built_not_run (fl : Flags) (lib : List Cls) (sg : SGraph) (roots : List Nat) (data : JVal)
+    (hwf : WF sg.g) (hr : ∀ r ∈ roots, r < sg.g.size) (n p : Nat) (hn : n ∈ serialOrder sg.g roots)
+    (hp : p ∈ (sg.g.node n).preTasks ∨ p ∈ (sg.g.node n).initTasks) :
+    let log := loadStateLog (serialize fl lib sg roots) data
+    log.count (Ev.new p) = 1 ∧ log.count (Ev.postInit p) = 1 ∧ log.count (Ev.exec p) = 0 := by
+  intro log
+  obtain ⟨_, _, _, hcl⟩ := serialOrder_spec sg.g roots hwf hr
+  have hps : p ∈ succAll sg.g n := by
+    simp only [succAll, List.mem_append]
+    rcases hp with h | h
+    · exact Or.inl (Or.inr h)
+    · exact Or.inr h
+  have hin := hcl n hn p hps
+  obtain ⟨h1, _, h3, _⟩ := loadStateLog_objects fl lib sg roots data hwf hr p
+  exact ⟨by show (loadStateLog _ _).count _ = 1; rw [h1, if_pos hin],
+         by show (loadStateLog _ _).count _ = 1; rw [h3, if_pos hin],
+         List.count_eq_zero.2 ((loadStateLog_no_exec _ _).1 p)⟩
+
 /-! ### non-vacuity: a diamond with a cycle, a pre-task shared by two nodes, one init task -/
 
 /-- 0 → {1, 2}, 1 → 3, 2 → 3, 3 → 0 (cycle); pre-task 4 on nodes 1 and 2; init task 5 on node 0. -/
@@ -142,5 +276,50 @@ example : runLog (serialize ⟨false, false, false⟩ [] { g := demo, cname := [
      .init 3, .set 3 [121], .postInit 3, .init 4, .set 4 [118], .postInit 4, .init 1, .set 1 [120], .postInit 1,
      .init 2, .set 2 [120], .postInit 2, .init 5, .set 5 [118], .postInit 5, .init 0, .set 0 [97], .set 0 [98], .postInit 0,
      .exec 4, .exec 5, .body 0] := by decide
+
+/-! non-vacuity of the saved-value route: two roots 0 and 1 sharing the leaf 2, a pre-task 3 on root 1, an
+    upstream task 4 behind a `task` link of the leaf, an unrelated node 5; the value is
+    `{"a": cfg0, "b": [cfg1, cfg0]}` -/
+def demo2 : SGraph :=
+  { g := { nodes := [ { typeId := [97], args := [{ name := [120], value := .ref 2 }] },
+                      { typeId := [98], args := [{ name := [121], value := .list [.ref 2] }, { name := [122], required := false, value := .none }], preTasks := [3] },
+                      { typeId := [99], args := [{ name := [118], value := .int 7 }], task := some 4 },
+                      { typeId := [108], args := [{ name := [118], value := .int 1 }] },
+                      { typeId := [116], args := [{ name := [119], value := .dict [[107]] [.int 2] }] },
+                      { typeId := [99], args := [{ name := [118], value := .int 9 }] } ] },
+    cname := [[65], [66], [67], [76], [84], [67]] }
+def demo2v : Val := .dict [[97], [98]] [.ref 0, .list [.ref 1, .ref 0]]
+def demo2fl : Flags := ⟨true, true, true⟩
+
+example : WF demo2.g := by
+  intro n hn m hm
+  have : n = 0 ∨ n = 1 ∨ n = 2 ∨ n = 3 ∨ n = 4 ∨ n = 5 := by simp [Graph.size, demo2] at hn; omega
+  rcases this with h | h | h | h | h | h <;> subst h <;>
+    simp [succAll, demo2, Graph.node, argRefs, cfgRefsL, cfgRefs, optL] at hm <;> simp [Graph.size, demo2] <;> omega
+example : cfgRefs demo2v = [0, 1, 0] ∧ serialOrder demo2.g (cfgRefs demo2v) = [4, 2, 0, 3, 1] := by decide
+example : noTypeKey demo2v = true ∧ ∀ n ∈ [0, 1, 2, 3, 4, 5], ∀ a ∈ (demo2.g.node n).args, noTypeKey a.value = true := by decide
+example : loadStateLog (stateDict demo2fl [] demo2 demo2v).1 (stateDict demo2fl [] demo2 demo2v).2 =
+    [.new 4, .new 2, .new 0, .new 3, .new 1,
+     .init 4, .set 4 [119], .postInit 4, .init 2, .set 2 [118], .postInit 2, .init 0, .set 0 [120], .postInit 0,
+     .init 3, .set 3 [118], .postInit 3, .init 1, .set 1 [121], .set 1 [122], .postInit 1] := by decide
+/-- the same definitions through `fromParameters(as_instance=True)` do run the pre-task -/
+example : loadInstanceLog (stateDict demo2fl [] demo2 demo2v).1 =
+    loadStateLog (stateDict demo2fl [] demo2 demo2v).1 .null ++ [.exec 3] := by decide
+example : (match fromStateDictInst (stateDict demo2fl [] demo2 demo2v) with
+    | .ok ([(4, _), (2, _), (0, [(_, .ref 2)]), (3, _), (1, [(_, .list [.ref 2]), (_, .none)])],
+           .dict _ [.ref 0, .list [.ref 1, .ref 0]]) => true
+    | _ => false) = true := by decide
+/-- hypotheses of `state_loaded_covers_instance` / `state_load_pretask_built_not_run`: `instance()` on root 1 builds
+    1, 2 and the pre-task 3 (not the upstream task 4); 3 is a pre-task of the written configuration 1 -/
+example : entersOf (instanceWalk demo2.g [] 1).trace = [1, 2, 3] ∧ 1 ∈ serialOrder demo2.g [0, 1, 0] ∧
+    3 ∈ (demo2.g.node 1).preTasks := by decide
+example : ∃ r ∈ cfgRefs demo2v, Reach (fun k => argRefs (demo2.g.node k)) r 2 :=
+  ⟨0, by decide, .step (b := 2) (by decide) (.refl 2)⟩
+/-- a cycle (1 → 3 → 0 → {1, 2}, 2 → 3) below two roots: node 2 is post-initialised while the object of node 3 it
+    holds is still unfilled — it exists (`new 3` is in the prefix) and is filled later -/
+example : loadStateLog (serialize demo2fl [] { g := demo, cname := [] } [1, 2]) .null =
+    [.new 4, .new 2, .new 5, .new 0, .new 3, .new 1,
+     .init 4, .set 4 [118], .postInit 4, .init 2, .set 2 [120], .postInit 2, .init 5, .set 5 [118], .postInit 5,
+     .init 0, .set 0 [97], .set 0 [98], .postInit 0, .init 3, .set 3 [121], .postInit 3, .init 1, .set 1 [120], .postInit 1] := by decide
 
 end XpmVerif.C13
